@@ -1157,6 +1157,7 @@ func (p Patch) copy(doc *container, op Operation, accumulatedCopySize *int64, op
 	}
 
 	(*accumulatedCopySize) += int64(sz)
+	verifCopyAccounted(options, sz, *accumulatedCopySize)
 	if options.AccumulatedCopySizeLimit > 0 && *accumulatedCopySize > options.AccumulatedCopySizeLimit {
 		return NewAccumulatedCopySizeError(options.AccumulatedCopySizeLimit, *accumulatedCopySize)
 	}
@@ -1251,6 +1252,7 @@ func (p Patch) ApplyIndentWithOptions(doc []byte, indent string, options *ApplyO
 	err = nil
 
 	var accumulatedCopySize int64
+	verifApplyBegin(options, p)
 
 	for _, op := range p {
 		switch op.Kind() {
@@ -1269,11 +1271,13 @@ func (p Patch) ApplyIndentWithOptions(doc []byte, indent string, options *ApplyO
 		default:
 			err = fmt.Errorf("Unexpected kind: %s", op.Kind())
 		}
+		verifOpDone(options, op, err)
 
 		if err != nil {
 			return nil, err
 		}
 	}
+	verifApplyEnd(options, pd)
 
 	data, err := json.MarshalEscaped(pd, options.EscapeHTML)
 	if err != nil {
